@@ -67,10 +67,14 @@ package reftable
 //@   modifies nothing
 //@   ensures ok ==> 0 < n && n <= len(buf)
 
+// C02: rkeyAt / rkeyOK name what decodeRestartKey reads at an offset (functions of the bytes; definitional)
+//@ spec rkeyAt(block []byte, off uint32) string
+//@ spec rkeyOK(block []byte, off uint32) bool
 //@ func decodeRestartKey
 //@   props C18 C19
 //@   nopanic
 //@   modifies nothing
+//@   assumes[model-restart-key] (err == nil) == rkeyOK(buf, off) && (err == nil ==> key == rkeyAt(buf, off))
 
 //@ func (*RefRecord).decode
 //@   props C18 C19
@@ -388,12 +392,37 @@ package reftable
 //@   nopanic
 //@   ensures result == br.block[br.headerOff]
 
+// ---------------------------------------------------------------------------------------------
+// C02, block level. Abstract view of a block the writer produced (ghost, uninterpreted): bcnt records; record i
+// starts at offset boff(i) and has key bkey(i); bpos inverts boff; restart j is record brst(j); isRst(i): record i
+// is stored with its full key (so decoding it does not depend on the previous key). blkModel(b) states what C14
+// (strictly ascending keys, restart table pointing at full keys, first record a restart) and C01 (the block decoder
+// inverts the block encoder) give for such a block, including the bytes of the restart table; it is ASSUMED for
+// writer-produced blocks (C02 speaks about tables the writer produced) and every C02 clause is conditional on it.
+// The assumes[...] clauses of decodeRestartKey and blockIter.Next tie the real decoders to the view (the C01
+// layer-3/4 gap); restartOffset is proved to read entry i of the restart table;
+// what is PROVED here is the search: binary search over the restart table, the step back, the linear scan.
+// ---------------------------------------------------------------------------------------------
+//@ spec bcnt(b *blockReader) int
+//@ spec boff(b *blockReader, i int) int
+//@ spec bkey(b *blockReader, i int) string
+//@ spec bpos(b *blockReader, off int) int
+//@ spec brst(b *blockReader, j int) int
+//@ spec isRst(b *blockReader, i int) bool
+//@ spec opaque blkModel(b *blockReader) bool = bcnt(b) >= 0 && boff(b, 0) == b.headerOff + 4 && boff(b, bcnt(b)) == len(b.block) && isRst(b, 0) && (forall i int :: 0 <= i && i <= bcnt(b) ==> bpos(b, boff(b, i)) == i) && (forall i int :: 0 <= i && i + 1 < bcnt(b) ==> bkey(b, i) < bkey(b, i + 1)) && (forall k int :: 0 <= k && k < 3 * b.restartCount && k % 3 == 0 ==> b.restartBytes[k]*65536 + b.restartBytes[k+1]*256 + b.restartBytes[k+2] == boff(b, brst(b, k / 3))) && (forall j int :: 0 <= j && j < b.restartCount ==> 0 <= brst(b, j) && brst(b, j) < bcnt(b) && isRst(b, brst(b, j)) && rkeyOK(b.block, boff(b, brst(b, j))) && rkeyAt(b.block, boff(b, brst(b, j))) == bkey(b, brst(b, j)))
+// an iterator state (off, last) stands at record i of the scan
+//@ spec scanAt(b *blockReader, off int, last string, i int) bool = 0 <= i && i <= bcnt(b) && off == boff(b, i) && (isRst(b, i) || (i > 0 && last == bkey(b, i - 1)))
+// the statement of C02 for one block with ascending keys: the record before the position is below the key, the
+// record at the position (if any) is at or above it
+//@ spec seekPost(b *blockReader, off int, last string, key string) bool = scanAt(b, off, last, bpos(b, off)) && (bpos(b, off) > 0 ==> bkey(b, bpos(b, off) - 1) < key) && (bpos(b, off) < bcnt(b) ==> bkey(b, bpos(b, off)) >= key)
+
 //@ func (*blockReader).restartOffset
 //@   props C18 C19
 //@   requires wfBR(br) && 0 <= i && i < br.restartCount
 //@   pure
 //@   nopanic
 //@   ensures result < 16777216
+//@   ensures[reads-entry-i-of-the-restart-table] {C02, C18} result == br.restartBytes[3*i]*65536 + br.restartBytes[3*i+1]*256 + br.restartBytes[3*i+2]
 
 //@ func (*blockReader).start
 //@   props C18 C19
@@ -411,6 +440,8 @@ package reftable
 //@   sets lastDelta = asptr(r, *RefRecord).UpdateIndex if result0 && istype(r, *RefRecord)
 //@   ensures result0 ==> result1 == nil && bi.nextOffset > old(bi.nextOffset) && old(bi.nextOffset) < len(bi.br.block)
 //@   ensures !result0 ==> bi.nextOffset == old(bi.nextOffset)
+//@   assumes[model-yield] blkModel(bi.br) && recMatches(r, bi.br.block[bi.br.headerOff]) && scanAt(bi.br, old(bi.nextOffset), old(bi.lastKey), bpos(bi.br, old(bi.nextOffset))) && bpos(bi.br, old(bi.nextOffset)) < bcnt(bi.br) ==> result0 && keyOf(r) == bkey(bi.br, bpos(bi.br, old(bi.nextOffset))) && bi.lastKey == keyOf(r) && bi.nextOffset == boff(bi.br, bpos(bi.br, old(bi.nextOffset)) + 1) && (istype(r, *indexRecord) ==> asptr(r, *indexRecord).Offset == tChild(bTab(bi.br), bOff(bi.br), bpos(bi.br, old(bi.nextOffset))))
+//@   assumes[model-end] blkModel(bi.br) && old(bi.nextOffset) == boff(bi.br, bcnt(bi.br)) ==> !result0 && result1 == nil
 
 //@ func (*blockReader).seek
 //@   props C18 C19
@@ -418,7 +449,9 @@ package reftable
 //@   nopanic
 //@   modifies lastDelta, yielded, stream
 //@   ensures result1 == nil ==> result0 != nil && fresh(result0) && result0.br == br
+//@   ensures[c02:lands-on-the-first-record-at-or-after-the-key] {C02} result1 == nil && blkModel(br) ==> seekPost(br, result0.nextOffset, result0.lastKey, key)
 //@   loop 1 invariant it.br == br && wfBR(br) && allocated(br) && fresh(it)
+//@   loop 1 invariant[c02:everything-before-the-position-is-below-the-key] {C02} blkModel(br) ==> recMatches(rec, br.block[br.headerOff]) && scanAt(br, it.nextOffset, it.lastKey, bpos(br, it.nextOffset)) && (bpos(br, it.nextOffset) > 0 ==> bkey(br, bpos(br, it.nextOffset) - 1) < key)
 //@   loop 1 decreases len(br.block) + 1 - it.nextOffset
 
 //@ func (*blockIter).seek
@@ -427,6 +460,7 @@ package reftable
 //@   nopanic
 //@   modifies bi.ALLFIELDS, lastDelta, yielded, stream
 //@   ensures result == nil ==> bi.br == old(bi.br)
+//@   ensures[c02:lands-on-the-first-record-at-or-after-the-key] {C02} result == nil && blkModel(old(bi.br)) ==> seekPost(bi.br, bi.nextOffset, bi.lastKey, key)
 
 // ---------------------------------------------------------------------------------------------
 // externs: bytes.Buffer, io, zlib (trusted). Ghost model: buflen[b] = unread bytes in buffer b,
@@ -488,6 +522,55 @@ package reftable
 // reader.go: block sources, table iteration, seeking
 // ---------------------------------------------------------------------------------------------
 
+// ---------------------------------------------------------------------------------------------
+// C02, table level. Abstract view of a table the writer produced (ghost, uninterpreted, keyed by reader and block
+// offset): tIsBlk(off): a block starts at off; tTyp: its type; tSec: the section it belongs to (for an index block:
+// the section it indexes); tCnt/tKey: its records' keys; tHasNext/tNext: the following block of the same run of
+// blocks; tHasPrev/tPrevLast: whether a record precedes the block in key order, and the last such key; tChild(off, i):
+// the block the i-th record of an index block points at; tTop: block of the top index level; tMax: the greatest key
+// of a section. tabM(r) is the token "r reads a table the writer produced"; the axioms say what C14 states about
+// such a table (keys ascending across blocks, index entries naming last key and position of existing child blocks at
+// every level). bTab/bOff name the table block a block reader was made from. All C02 clauses are conditional on
+// tabM; none of this is assumed on the C18 paths.
+// ---------------------------------------------------------------------------------------------
+//@ spec bTab(b *blockReader) *Reader
+//@ spec bOff(b *blockReader) int
+//@ spec tabM(r *Reader) bool
+//@ spec tIsBlk(r *Reader, off int) bool
+//@ spec tTyp(r *Reader, off int) byte
+//@ spec tSec(r *Reader, off int) byte
+//@ spec tCnt(r *Reader, off int) int
+//@ spec tKey(r *Reader, off int, i int) string
+//@ spec tHasNext(r *Reader, off int) bool
+//@ spec tNext(r *Reader, off int) int
+//@ spec tHasPrev(r *Reader, off int) bool
+//@ spec tPrevLast(r *Reader, off int) string
+//@ spec tChild(r *Reader, off int, i int) int
+//@ spec tTop(r *Reader, off int) bool
+//@ spec tMax(r *Reader, typ byte) string
+//@ axiom tabChain: forall r *Reader, off int :: tabM(r) && tIsBlk(r, off) && tHasNext(r, off) ==> tIsBlk(r, tNext(r, off)) && tTyp(r, tNext(r, off)) == tTyp(r, off) && tSec(r, tNext(r, off)) == tSec(r, off) && tTop(r, tNext(r, off)) == tTop(r, off) && tHasPrev(r, tNext(r, off)) && tPrevLast(r, tNext(r, off)) == tKey(r, off, tCnt(r, off) - 1) && tKey(r, off, tCnt(r, off) - 1) < tKey(r, tNext(r, off), 0)
+//@ axiom tabEnd: forall r *Reader, off int :: tabM(r) && tIsBlk(r, off) && !tHasNext(r, off) ==> !(tIsBlk(r, tNext(r, off)) && tTyp(r, tNext(r, off)) == tTyp(r, off))
+//@ axiom tabPrev: forall r *Reader, off int :: tabM(r) && tIsBlk(r, off) && tHasPrev(r, off) ==> tPrevLast(r, off) < tKey(r, off, 0)
+//@ axiom tabIdx: forall r *Reader, off int, i int :: tabM(r) && tIsBlk(r, off) && tTyp(r, off) == 'i' && 0 <= i && i < tCnt(r, off) ==> tIsBlk(r, tChild(r, off, i)) && (tTyp(r, tChild(r, off, i)) == tSec(r, off) || (tTyp(r, tChild(r, off, i)) == 'i' && tSec(r, tChild(r, off, i)) == tSec(r, off) && !tTop(r, tChild(r, off, i)))) && tSec(r, off) != 'i' && tKey(r, tChild(r, off, i), tCnt(r, tChild(r, off, i)) - 1) == tKey(r, off, i) && (i > 0 ==> tHasPrev(r, tChild(r, off, i)) && tPrevLast(r, tChild(r, off, i)) == tKey(r, off, i - 1)) && (i == 0 ==> tHasPrev(r, tChild(r, off, i)) == tHasPrev(r, off) && tPrevLast(r, tChild(r, off, i)) == tPrevLast(r, off))
+//@ axiom tabTopEnd: forall r *Reader, off int :: tabM(r) && tIsBlk(r, off) && tTyp(r, off) == 'i' && tTop(r, off) && !tHasNext(r, off) ==> tKey(r, off, tCnt(r, off) - 1) == tMax(r, tSec(r, off))
+// the block reader b was made from the block at off of r's table and shows its records
+//@ spec opaque linked(b *blockReader, r *Reader, off int) bool = blkModel(b) && bTab(b) == r && bOff(b) == off && 0 <= off && off < 9223372036854775808 && tIsBlk(r, off) && tTyp(r, off) != 0 && b.block[b.headerOff] == tTyp(r, off) && off + b.fullBlockSize == tNext(r, off) && bcnt(b) == tCnt(r, off) && tCnt(r, off) >= 1 && (forall k int :: 0 <= k && k < tCnt(r, off) ==> bkey(b, k) == tKey(r, off, k))
+// a table iterator inside a block of a writer-produced table
+//@ spec tiOK(i *tableIter) bool = tabM(i.r) && linked(i.bi.br, i.r, i.blockOff) && i.typ == tTyp(i.r, i.blockOff) && !i.finished
+// C02 for a positioned table iterator: inside its block the position is the first record at or after the key; every
+// record of earlier blocks is below the key; if the position is the end of the block, the next block starts at or
+// above the key (or there is none). With keys ascending along the scan this is "the scan suffix of records >= key".
+//@ spec landedTI(i *tableIter, key string) bool = tiOK(i) && seekPost(i.bi.br, i.bi.nextOffset, i.bi.lastKey, key) && (!tHasPrev(i.r, i.blockOff) || tPrevLast(i.r, i.blockOff) < key) && (bpos(i.bi.br, i.bi.nextOffset) < bcnt(i.bi.br) || !tHasNext(i.r, i.blockOff) || tKey(i.r, tNext(i.r, i.blockOff), 0) >= key)
+// every key of the section is below the key (kept behind a symbol: the string order only matters where it is used)
+//@ spec opaque allBelow(r *Reader, typ byte, key string) bool = tMax(r, typ) < key
+//@ spec tiPos(i *tableIter) int = bpos(i.bi.br, i.bi.nextOffset)
+//@ spec tiScan(i *tableIter) bool = tiOK(i) && scanAt(i.bi.br, i.bi.nextOffset, i.bi.lastKey, tiPos(i))
+// precondition of the linear seek: the iterator is in a block no record before which is at or above the key
+//@ spec startsBelow(i *tableIter, key string) bool = tiOK(i) && (!tHasPrev(i.r, i.blockOff) || tPrevLast(i.r, i.blockOff) < key)
+//@ spec startTI(i *tableIter) bool = tiOK(i) && i.bi.nextOffset == i.bi.br.headerOff + 4 && i.bi.lastKey == "" && !tHasPrev(i.r, i.blockOff)
+// what the reader's section table says, in terms of the view
+//@ spec opaque tabMH(r *Reader, typ byte) bool = tabM(r) && (typ == 'r' || typ == 'g' || typ == 'o') && (r.offsets[typ].IndexOffset > 0 ==> tIsBlk(r, r.offsets[typ].IndexOffset) && tTyp(r, r.offsets[typ].IndexOffset) == 'i' && tSec(r, r.offsets[typ].IndexOffset) == typ && tTop(r, r.offsets[typ].IndexOffset) && !tHasPrev(r, r.offsets[typ].IndexOffset)) && (r.offsets[typ].Present ==> tIsBlk(r, r.offsets[typ].Offset) && tTyp(r, r.offsets[typ].Offset) == typ && !tHasPrev(r, r.offsets[typ].Offset))
+
 //@ spec wfReader(r *Reader) bool = r != nil && r.src != nil && (r.hashSize == 20 || r.hashSize == 32) && (r.version == 1 || r.version == 2) && r.size < 9223372036854775808
 //@ spec recMatches(rec record, typ byte) bool = iref(rec) != 0 && ((typ == 'r' && istype(rec, *RefRecord)) || (typ == 'g' && istype(rec, *LogRecord)) || (typ == 'o' && istype(rec, *objRecord)) || (typ == 'i' && istype(rec, *indexRecord)))
 //@ spec wfTI(i *tableIter) bool = i != nil && wfReader(i.r) && wfBI(i.bi) && typeOK(i.bi.br)
@@ -544,6 +627,7 @@ package reftable
 //@   ensures err == nil && br != nil ==> fresh(br) && wfBR(br) && typeOK(br)
 //@   ensures[wantTyp] err == nil && br != nil && wantTyp != 0 ==> br.block[br.headerOff] == wantTyp
 //@   ensures err != nil ==> br == nil
+//@   assumes[model-block-of-the-table] tabM(r) ==> err == nil && ((br != nil) == (tIsBlk(r, nextOff) && (wantTyp == 0 || tTyp(r, nextOff) == wantTyp))) && (br != nil ==> linked(br, r, nextOff))
 
 //@ func (*tableIter).nextBlock
 //@   props C18 C19
@@ -551,6 +635,8 @@ package reftable
 //@   nopanic
 //@   modifies buflen, bufdata, lastDelta, lastSought, i.blockOff, i.bi.ALLFIELDS, i.finished, seekOn, seekName, seekIdx, yielded, stream
 //@   ensures result1 == nil ==> wfTI(i)
+//@   ensures[c02:moves-to-the-following-block] {C02} old(tiOK(i)) && old(tHasNext(i.r, i.blockOff)) ==> result0 && result1 == nil && i.r == old(i.r) && i.typ == old(i.typ) && i.blockOff == old(tNext(i.r, i.blockOff)) && tiOK(i) && i.bi.nextOffset == i.bi.br.headerOff + 4 && i.bi.lastKey == ""
+//@   ensures[c02:stops-after-the-last-block] {C02} old(tiOK(i)) && !old(tHasNext(i.r, i.blockOff)) ==> !result0 && result1 == nil
 
 //@ func (*tableIter).nextInBlock
 //@   props C18 C19 C11
@@ -559,6 +645,8 @@ package reftable
 //@   modifies i.bi.lastKey, i.bi.nextOffset, rec, lastDelta, yielded, stream
 //@   ensures wfTI(i)
 //@   ensures[abs-index] {C11,C01} result0 && istype(rec, *RefRecord) ==> asptr(rec, *RefRecord).UpdateIndex == wrap64(lastDelta + i.r.header.MinUpdateIndex)
+//@   ensures[c02:yields-the-record-at-the-position] {C02} old(tiScan(i)) && old(tiPos(i) < tCnt(i.r, i.blockOff)) ==> result0 && result1 == nil && tiScan(i) && tiPos(i) == old(tiPos(i)) + 1 && keyOf(rec) == old(tKey(i.r, i.blockOff, tiPos(i))) && (istype(rec, *indexRecord) ==> asptr(rec, *indexRecord).Offset == old(tChild(i.r, i.blockOff, tiPos(i))))
+//@   ensures[c02:reports-the-end-of-the-block] {C02} old(tiScan(i)) && old(tiPos(i) == tCnt(i.r, i.blockOff)) ==> !result0 && result1 == nil
 
 //@ func (*tableIter).Next
 //@   props C18 C19
@@ -566,7 +654,13 @@ package reftable
 //@   nopanic
 //@   modifies buflen, bufdata, lastDelta, lastSought, i.blockOff, i.bi.ALLFIELDS, i.finished, rec, seekOn, seekName, seekIdx, yielded, stream
 //@   ensures result1 == nil ==> wfTI(i)
+//@   ensures[c02:yields-the-record-at-the-position] {C02} old(tiScan(i)) && old(tiPos(i) < tCnt(i.r, i.blockOff)) ==> result0 && result1 == nil && i.r == old(i.r) && i.blockOff == old(i.blockOff) && i.bi.br == old(i.bi.br) && tiScan(i) && tiPos(i) == old(tiPos(i)) + 1 && keyOf(rec) == old(tKey(i.r, i.blockOff, tiPos(i))) && (istype(rec, *indexRecord) ==> asptr(rec, *indexRecord).Offset == old(tChild(i.r, i.blockOff, tiPos(i))))
+//@   ensures[c02:crosses-to-the-following-block] {C02} old(tiScan(i)) && old(tiPos(i) == tCnt(i.r, i.blockOff)) && old(tHasNext(i.r, i.blockOff)) ==> result0 && result1 == nil && i.r == old(i.r) && i.blockOff == old(tNext(i.r, i.blockOff)) && tiScan(i) && tiPos(i) == 1 && keyOf(rec) == tKey(i.r, i.blockOff, 0) && (istype(rec, *indexRecord) ==> asptr(rec, *indexRecord).Offset == tChild(i.r, i.blockOff, 0))
+//@   ensures[c02:ends-after-the-last-record] {C02} old(tiScan(i)) && old(tiPos(i) == tCnt(i.r, i.blockOff)) && !old(tHasNext(i.r, i.blockOff)) ==> !result0 && result1 == nil
 //@   loop 1 invariant wfTI(i) && recMatches(rec, i.typ)
+//@   loop 1 frame
+//@   loop 1 invariant[c02:the-block-left-behind-stays-as-it-was] {C02} old(tiOK(i)) ==> i.r == old(i.r) && linked(old(i.bi.br), old(i.r), old(i.blockOff)) && blkModel(old(i.bi.br))
+//@   loop 1 invariant[c02:first-round-or-just-crossed] {C02} old(tiScan(i)) ==> i.r == old(i.r) && i.typ == old(i.typ) && ((i.blockOff == old(i.blockOff) && i.bi.br == old(i.bi.br) && i.bi.nextOffset == old(i.bi.nextOffset) && i.bi.lastKey == old(i.bi.lastKey) && i.finished == old(i.finished)) || (old(tiPos(i) == tCnt(i.r, i.blockOff)) && old(tHasNext(i.r, i.blockOff)) && i.blockOff == old(tNext(i.r, i.blockOff)) && tiOK(i) && i.bi.nextOffset == i.bi.br.headerOff + 4 && i.bi.lastKey == ""))
 
 //@ func (*Reader).tabIterAt
 //@   props C18 C19
@@ -574,6 +668,8 @@ package reftable
 //@   nopanic
 //@   modifies buflen, bufdata, lastDelta, lastSought, seekOn, seekName, seekIdx, yielded, stream
 //@   ensures result1 == nil && result0 != nil ==> fresh(result0) && wfTI(result0) && (wantTyp == 0 || result0.typ == wantTyp)
+//@   ensures[positioned-at-the-start-of-the-block-asked-for] {C02, C18} result1 == nil && result0 != nil ==> result0.r == r && result0.blockOff == off && result0.bi.nextOffset == result0.bi.br.headerOff + 4 && result0.bi.lastKey == "" && !result0.finished
+//@   ensures[c02:opens-the-block-of-the-table-at-that-offset] {C02} tabM(r) ==> result1 == nil && ((result0 != nil) == (tIsBlk(r, off) && (wantTyp == 0 || tTyp(r, off) == wantTyp))) && (result0 != nil ==> tiOK(result0))
 
 //@ func (*Reader).start
 //@   props C18 C19
@@ -581,6 +677,7 @@ package reftable
 //@   nopanic
 //@   modifies buflen, bufdata, lastDelta, lastSought, seekOn, seekName, seekIdx, yielded, stream
 //@   ensures result1 == nil && result0 != nil ==> fresh(result0) && wfTI(result0) && ((index && result0.typ == 'i') || (!index && (typ == 0 || result0.typ == typ)))
+//@   ensures[c02:starts-at-the-first-block-of-the-section-or-of-its-top-index] {C02} tabMH(r, typ) ==> result1 == nil && (index ==> ((result0 != nil) == (r.offsets[typ].IndexOffset > 0)) && (result0 != nil ==> result0.r == r && startTI(result0) && tTyp(r, result0.blockOff) == 'i' && tSec(r, result0.blockOff) == typ && tTop(r, result0.blockOff))) && (!index && r.offsets[typ].Present ==> result0 != nil && result0.r == r && startTI(result0) && tTyp(r, result0.blockOff) == typ)
 
 //@ func (*Reader).seekLinear
 //@   props C18 C19
@@ -589,7 +686,9 @@ package reftable
 //@   modifies buflen, bufdata, lastDelta, lastSought, tabIter.ALLFIELDS, seekOn, seekName, seekIdx, yielded, stream
 //@   ensures result1 == nil ==> wfTI(tabIter) && tabIter.typ == old(tabIter.typ)
 //@   ensures result0 ==> result1 == nil
+//@   ensures[c02:lands-on-the-first-record-at-or-after-the-key] {C02} result1 == nil && old(startsBelow(tabIter, keyOf(want))) ==> result0 && tabIter.r == old(tabIter.r) && landedTI(tabIter, keyOf(want)) && tTop(tabIter.r, tabIter.blockOff) == old(tTop(tabIter.r, tabIter.blockOff)) && tSec(tabIter.r, tabIter.blockOff) == old(tSec(tabIter.r, tabIter.blockOff))
 //@   loop 1 invariant wfTI(tabIter) && tabIter.typ == old(tabIter.typ) && recMatches(rec, tabIter.typ) && fresh(iref(rec))
+//@   loop 1 invariant[c02:blocks-skipped-so-far-start-at-or-below-the-key] {C02} old(startsBelow(tabIter, keyOf(want))) ==> wantKey == keyOf(want) && tabIter.r == old(tabIter.r) && tiOK(tabIter) && tTop(tabIter.r, tabIter.blockOff) == old(tTop(tabIter.r, tabIter.blockOff)) && tSec(tabIter.r, tabIter.blockOff) == old(tSec(tabIter.r, tabIter.blockOff)) && (!tHasPrev(tabIter.r, tabIter.blockOff) || tPrevLast(tabIter.r, tabIter.blockOff) < wantKey)
 
 //@ spec recAny(rec record) bool = iref(rec) != 0 && (istype(rec, *RefRecord) || istype(rec, *LogRecord) || istype(rec, *objRecord) || istype(rec, *indexRecord))
 //@ spec typOf(rec record) byte = istype(rec, *RefRecord) ? 'r' : (istype(rec, *LogRecord) ? 'g' : (istype(rec, *objRecord) ? 'o' : 'i'))
@@ -609,7 +708,16 @@ package reftable
 //@   nopanic
 //@   modifies buflen, bufdata, lastDelta, lastSought, seekOn, seekName, seekIdx, yielded, stream
 //@   ensures result1 == nil && result0 != nil ==> fresh(result0) && wfTI(result0) && result0.typ == typOf(want)
+//@   ensures[c02:ref-lands-on-the-first-record-at-or-after-the-key] {C02} result1 == nil && result0 != nil && istype(want, *RefRecord) && tabMH(r, 'r') ==> result0.r == r && landedTI(result0, keyOf(want))
+//@   ensures[c02:ref-finds-nothing-only-if-every-key-is-below] {C02} result1 == nil && result0 == nil && istype(want, *RefRecord) && tabMH(r, 'r') ==> r.offsets['r'].IndexOffset == 0 || allBelow(r, 'r', keyOf(want))
+//@   ensures[c02:log-lands-on-the-first-record-at-or-after-the-key] {C02} result1 == nil && result0 != nil && istype(want, *LogRecord) && tabMH(r, 'g') ==> result0.r == r && landedTI(result0, keyOf(want))
+//@   ensures[c02:log-finds-nothing-only-if-every-key-is-below] {C02} result1 == nil && result0 == nil && istype(want, *LogRecord) && tabMH(r, 'g') ==> r.offsets['g'].IndexOffset == 0 || allBelow(r, 'g', keyOf(want))
+//@   ensures[c02:obj-lands-on-the-first-record-at-or-after-the-key] {C02} result1 == nil && result0 != nil && istype(want, *objRecord) && tabMH(r, 'o') ==> result0.r == r && landedTI(result0, keyOf(want))
+//@   ensures[c02:obj-finds-nothing-only-if-every-key-is-below] {C02} result1 == nil && result0 == nil && istype(want, *objRecord) && tabMH(r, 'o') ==> r.offsets['o'].IndexOffset == 0 || allBelow(r, 'o', keyOf(want))
 //@   loop 1 invariant wfTI(idxIter) && idxIter.typ == 'i' && fresh(idxIter)
+//@   loop 1 invariant[c02:ref-the-index-iterator-stands-at-the-entry-of-the-block-to-descend-into] {C02} istype(want, *RefRecord) && tabMH(r, 'r') ==> idxIter.r == r && landedTI(idxIter, keyOf(want)) && tTyp(r, idxIter.blockOff) == 'i' && tSec(r, idxIter.blockOff) == 'r' && (tTop(r, idxIter.blockOff) || tiPos(idxIter) < tCnt(r, idxIter.blockOff))
+//@   loop 1 invariant[c02:log-the-index-iterator-stands-at-the-entry-of-the-block-to-descend-into] {C02} istype(want, *LogRecord) && tabMH(r, 'g') ==> idxIter.r == r && landedTI(idxIter, keyOf(want)) && tTyp(r, idxIter.blockOff) == 'i' && tSec(r, idxIter.blockOff) == 'g' && (tTop(r, idxIter.blockOff) || tiPos(idxIter) < tCnt(r, idxIter.blockOff))
+//@   loop 1 invariant[c02:obj-the-index-iterator-stands-at-the-entry-of-the-block-to-descend-into] {C02} istype(want, *objRecord) && tabMH(r, 'o') ==> idxIter.r == r && landedTI(idxIter, keyOf(want)) && tTyp(r, idxIter.blockOff) == 'i' && tSec(r, idxIter.blockOff) == 'o' && (tTop(r, idxIter.blockOff) || tiPos(idxIter) < tCnt(r, idxIter.blockOff))
 
 //@ func (*Reader).seekRecord
 //@   props C18 C19
